@@ -9,6 +9,8 @@ R-C29.3  "every word of every label and message": in render_diagnostic, each mes
          non-emptiness (labels: the child having a span).
 R-C29.4  "spanned source lines": SourceMap.add_file (re-)reads the file on every call (no
          stale cache); span_lines indexes with the span's own start/end lines.
+R-C29.5  context lines keep their numbers: between `span_lines(...)` and the numbering loop the window is only
+         rewritten line by line and the context count is not changed (c29_lines.py, below).
 Not decided: column arithmetic of the highlight markers, indentation trimming, termination.
 """
 
@@ -151,9 +153,5 @@ def run(ctx: Ctx) -> None:
     ctx.check(g.every_path_to_exit_passes(writes), "R-C29.4", f"{af.qualname}#always-refreshes", af.where, {},
               "registering a file that is already known keeps the old text: after the file changed, diagnostics show stale source lines "
               "under the new line numbers (or rendering fails past the end of the stale copy)")
-    sl = idx.method("SourceMap", "span_lines", "guppylang_internals.span")
-    rets = [r.value for r in walk_no_nested(sl.node) if isinstance(r, ast.Return)]
-    ok = len(rets) == 1 and isinstance(rets[0], ast.Subscript) and isinstance(rets[0].slice, ast.Slice) \
-        and ast.unparse(rets[0].slice.lower).replace(" ", "") == "span.start.line-prefix_lines-1" and ast.unparse(rets[0].slice.upper) == "span.end.line"
-    ctx.check(ok, "R-C29.4", f"{sl.qualname}#line-window", sl.where, {"returns": ast.unparse(rets[0])[:120] if rets else None},
-              "the source lines shown are not the lines start..end of the span (1-based, plus the requested context)")
+    from . import c29_lines
+    c29_lines.run(ctx)
